@@ -36,6 +36,7 @@ def parseEvent : List String → Option Event
   | ["call", g, "lock"] => g.toNat?.map fun g => .callLock g false false
   | ["call", g, "lockctx"] => g.toNat?.map fun g => .callLock g true false
   | ["call", g, "lockctx-cancelled"] => g.toNat?.map fun g => .callLock g true true
+  | ["call", g, "lockctx-shut"] => g.toNat?.map fun g => .callLock g true false   -- the Shutdown it triggers is its own event
   | ["call", g, "try"] => g.toNat?.map .callTry
   | ["call", g, "unlock"] => g.toNat?.map .callUnlock
   | ["at", g, "create"] => g.toNat?.map .atCreate
